@@ -1,7 +1,7 @@
 #!/bin/bash
 # usage: mut.sh <patch-file> <govc args...>   -- apply a patch to a scratch copy of /repo and run govc on it
 set -u
-patch=$1; shift
+patch=$(realpath "$1"); shift
 d=$(mktemp -d /tmp/govc-mut.XXXXXX)
 trap 'rm -rf "$d"' EXIT
 cp /repo/*.go /repo/go.mod /repo/go.sum "$d"/
